@@ -378,7 +378,7 @@ def main(tier, n=None):
     rep.assumptions = ["distance = |anc*(HEAD) \\ anc*(v)| (the documentation's 'number of commits separating'; equals git rev-list --count HEAD ^v on every DAG)",
                        "recorded versions whose commit hash is unknown to the repository are non-ancestors", "dirtiness is produced by content changes only (no stat races)"]
     rng = common.rng_for("c05", common.base_seed())
-    total = n or (100 if tier == "quick" else 2000)
+    total = n or (300 if tier == "quick" else 4000)
     cases = [gen_case(rng) for _ in range(total)]
     cli.warm()
     res = common.parallel_map(eval_case, cases, timeout=900)
